@@ -374,8 +374,7 @@ class Erf(MathFunction):
         """Create a new Erf."""
         if isinstance(argument, RealValue | Zero):
             return FloatValue(math.erf(float(argument)))
-        if isinstance(argument, (ConstantValue)):
-            return ComplexValue(math.erf(complex(argument)))
+        # No folding of complex literals: the math module has no complex erf
         return MathFunction.__new__(cls)
 
     def __init__(self, argument):
